@@ -22,9 +22,12 @@ LEVEL_TEXT = ("The decision logic of resolve_local_links / embed_local_links_as_
               "file whose canonical path lies below the canonical root and equals assets + the path relative to the root, hence contains no '..'; "
               "otherwise the corresponding error. The model is compared with the real functions on real directories (files, symlinks inside/outside, "
               "every link spelling); the oracle checks byte-identical copies, data URLs and that no byte of an outside canary file reaches the output.")
-LEVEL_NOTE = ("Partial: Path.resolve being canonical (symlinks), copyfile being byte-exact, mimetypes and lxml's rewrite_links finding every link are the file "
+LEVEL_NOTE = ("Path resolution is modelled too (C16b: an abstract file system with symbolic links, CPython's Path.resolve() including what it does at a loop, "
+              "percent-decoding, component-wise containment): asset_is_inside_root and no_outside_bytes hold for every file system, root and URL; the model found "
+              "that the pinned code served outside bytes behind a symlink loop (single_resolve_leaks) and that a first repair was insufficient "
+              "(double_resolve_leaks); the repaired code is what is modelled and compared on generated directory trees. Partial: copyfile being byte-exact, mimetypes and lxml's rewrite_links finding every link are the file "
               "system's and the libraries' behaviour: observed by the oracle, not proved. Trusted: Lean kernel; urlsplit/unquote as the harness applies them.")
-LEAN_MODULES = ["RecipeGrid.Props.C16"]
+LEAN_MODULES = ["RecipeGrid.Props.C16", "RecipeGrid.Props.C16b"]
 SOURCES = ["recipe_grid/static_site/html_postprocessing.py", "recipe_grid/static_site/website.py", "recipe_grid/static_site/standalone_page.py"]
 RULE = ("link spellings: relative, ./, ../ chains (inside and escaping the root), root-absolute, percent-encoded, with query/fragment, external schemes, "
         "protocol-relative, in-page anchors, empty; targets: existing files with random bytes and names with spaces/#/%, directories, missing files, "
@@ -134,6 +137,9 @@ def correspondence(run):
                 run.disagree("resolve_local_links", [url, from_path], [real, list(assets.values())], repr(m))
     finally:
         shutil.rmtree(scratch, ignore_errors=True)
+    # path resolution itself (symbolic links, loops, '..', percent-decoding, containment) on generated directory trees
+    from .. import fs_corr
+    fs_corr.correspondence(run, run.budget(25, 400))
 
 
 # ------------------------------------------------------------------ oracle: whole generators on a real tree
@@ -309,6 +315,43 @@ def check_symlinked_recipe_in_site():
         shutil.rmtree(scratch, ignore_errors=True)
 
 
+def check_raw_html_references():
+    """local files referred to only by raw HTML (upper-case tag and attribute names, OBJECT DATA is not one of lxml's link attributes and is
+    left out) in a category readme / a recipe: copied all the same, and an escape is refused all the same"""
+    out = []
+    scratch = gen_site.scratch_root()
+    try:
+        root = scratch / "site"
+        (root / "mains").mkdir(parents=True)
+        (scratch / "outside.png").write_bytes(b"outside bytes")
+        (root / "mains" / "photo.png").write_bytes(b"photo bytes")
+        (root / "mains" / "banner.png").write_bytes(b"banner bytes")
+        (root / "mains" / "stew.md").write_text("# Stew for 2\n\n    1 x\n\n<IMG SRC=\"banner.png\" ALT=\"J\">\n")
+        (root / "mains" / "README.md").write_text("# Mains\n\n<IMG SRC=\"photo.png\" ALT=\"J\">\n\n<A HREF=\"stew.md\">H</A>\n")
+        (root / "README.md").write_text("# Home\n\n<IMG SRC = \"mains/photo.png\" ALT=\"J\">\n")
+        generate_static_site(root, scratch / "out", 2)
+        for rel in ("mains/photo.png", "mains/banner.png"):
+            dst = scratch / "out" / "assets" / rel
+            if not dst.exists() or dst.read_bytes() != (root / rel).read_bytes():
+                out.append(("C16:file-referred-to-by-raw-html-not-copied", "assets/%s is %s" % (rel, "missing" if not dst.exists() else "different")))
+        for page, needle in (("categories/mains/index.html", "photo.png"), ("serves1/mains/index.html", "photo.png"), ("index.html", "photo.png"), ("serves2/mains/stew.html", "banner.png")):
+            text = (scratch / "out" / page).read_text()
+            for m in re.findall(r'(?i)(?:src|href)\s*=\s*"([^"]*%s)"' % re.escape(needle), text):
+                if gen_site.resolve("/" + page, m) != "/assets/mains/" + needle:
+                    out.append(("C16:raw-html-reference-not-rewritten", "%s: %r" % (page, m)))
+        (root / "mains" / "README.md").write_text("# Mains\n\n<IMG SRC=\"../../outside.png\" ALT=\"J\">\n")
+        try:
+            generate_static_site(root, scratch / "out2", 2)
+            out.append(("C16:escape-through-raw-html-not-refused", "a readme showing ../../outside.png through <IMG SRC=...> was generated without error"))
+        except StaticSiteError:
+            pass
+        return out
+    except Exception as e:  # noqa
+        return out + [("C16:generation-raises:%s" % type(e).__name__, str(e)[:200])]
+    finally:
+        shutil.rmtree(scratch, ignore_errors=True)
+
+
 def check_rebuild_after_readme_edit():
     """a readme that is edited to point at another local file between two generations in one process: the second site has that file"""
     out = []
@@ -338,9 +381,19 @@ def check_rebuild_after_readme_edit():
 
 def oracle(run):
     rng = run.rng
+    from .. import fs_corr
+    run.case(("oracle-containment",), True, kind="containment")
+    seen = set()
+    for sig, detail, where in fs_corr.containment_oracle(rng, run.budget(40, 800)):
+        if sig not in seen:
+            seen.add(sig)
+            run.violate(sig, detail, {"containment": where})
     run.case(("oracle-symlinked-recipe",), True, kind="symlinked-recipe")
     for sig, detail in check_symlinked_recipe_in_site():
         run.violate(sig, detail, {"symlinked_recipe": True})
+    run.case(("oracle-raw-html",), True, kind="raw-html-references")
+    for sig, detail in check_raw_html_references():
+        run.violate(sig, detail, {"raw_html": True})
     run.case(("oracle-readme-edit",), True, kind="rebuild-after-readme-edit")
     for sig, detail in check_rebuild_after_readme_edit():
         run.violate(sig, detail, {"readme_edit": True})
@@ -366,6 +419,17 @@ def oracle(run):
 
 def replay(run, obj):
     import random
+    if obj["replay"].get("containment"):
+        from .. import fs_corr
+        res = fs_corr.replay_containment(obj["replay"]["containment"])
+        for x in res:
+            print(*x[:2])
+        return bool(res)
+    if obj["replay"].get("raw_html"):
+        res = check_raw_html_references()
+        for x in res:
+            print(*x)
+        return bool(res)
     if obj["replay"].get("symlinked_recipe") or obj["replay"].get("readme_edit"):
         res = check_symlinked_recipe_in_site() if obj["replay"].get("symlinked_recipe") else check_rebuild_after_readme_edit()
         for x in res:
